@@ -184,6 +184,7 @@ class Scheduler:
         self.sleep_log = []        # (step, tid, duration)
         self.kbi_delivered = []    # (step, what) of harness-delivered Ctrl-C
         self.unbilled = set()      # tids inside a signing / pre-flight read
+        self.tick = 0.0            # virtual time added at every point
         self.errors = []           # uncaught exceptions of controlled threads
 
     # -- thread management ---------------------------------------------
@@ -310,6 +311,8 @@ class Scheduler:
         if self.aborting:
             raise SchedAbort()
         self.step += 1
+        if self.tick:
+            self.clock += self.tick
         if self.step > self.max_steps:
             self.budget_exceeded = True
             self.aborting = True
